@@ -1300,6 +1300,11 @@ func main() {
 			Ops: []opJ{{K: "start"}, {K: "flush"}, {K: "end"}, {K: "start"}}},
 		scenario{Kind: "reent", Kinds: []string{"log"}, Nest: []nestJ{{"shutdown", "shutdown"}, {"shutdown", "flush"}, {"onend", "handle"}}, Ops: []opJ{{K: "start"}, {K: "flush"}}},
 		scenario{Kind: "reent", Kinds: []string{"metric"}, Nest: []nestJ{{"shutdown", "flush"}, {"shutdown", "handle"}}, Ops: []opJ{{K: "start"}, {K: "flush"}}},
+		// instrumented exporter: its Shutdown ends a span on the same provider; processor Shutdown / Unregister / provider Shutdown, no deadline
+		scenario{Kind: "reent", Kinds: []string{"xsimple"}, Extra: 0, Nest: []nestJ{{"xshutdown", "span"}}, Ops: []opJ{{K: "start"}, {K: "end"}}},
+		scenario{Kind: "reent", Kinds: []string{"xsimple"}, Extra: 1, Nest: []nestJ{{"xshutdown", "span"}}, Ops: []opJ{{K: "start"}, {K: "end"}}},
+		scenario{Kind: "reent", Kinds: []string{"xsimple"}, Extra: 2, Nest: []nestJ{{"xshutdown", "span"}}, Ops: []opJ{{K: "start"}, {K: "end"}}},
+		scenario{Kind: "reent", Kinds: []string{"xbatch"}, Extra: 1, Nest: []nestJ{{"xshutdown", "span"}, {"xexport", "span"}}, Ops: []opJ{{K: "start"}, {K: "end"}, {K: "flush"}}},
 	)
 	for i := 0; i < o.Count(60, 800); i++ {
 		scs = append(scs, genReent(r))
